@@ -7,6 +7,7 @@ import c06_common as tf
 import lib
 import norm_common as nc
 import normwhole as nw
+import platform_pa as ppa
 
 ID = "C06"
 LEAN_MODULE = "UralModel.Props.C06"
@@ -96,7 +97,10 @@ TRUSTED = [
     "the accessors on the netloc normalize_url assembled, and safe_urlsplit(host).hostname, are hand models of CPython 3.12.1 "
     "(pyNetlocAcc, pyWalkHost) for which AccLaws / WalkLaws are proved; _checknetloc (NFKC of a non-ASCII netloc) is not modelled",
     "attempt_to_decode_idna is a parameter (puny), arbitrary in every theorem; the platform_aware branch is an abstract string "
-    "rewriting before parsing (theorems on Parsed hold after it; the commutation of T with it is checked by the oracle only)",
+    "rewriting before parsing in the old lines (fp_parts, fingerprint_whole: the harness ships the rewritten components / the table of the branch); the line "
+    "`fingerprint_whole_pa` (every platform_aware=True case + facebook / youtube url shapes of the C19 generators) ships NOTHING about it: the branch is the concrete "
+    "Platform.platformConcrete (Model/Platform.lean, the C19 models of ural/facebook.py / ural/youtube.py), compared with the real fingerprint_url(u, platform_aware=True); "
+    "cases outside the component models' stated domains are counted (pa:outside-model:*) and withheld",
     "str.lower / str.upper beyond ASCII are the identity in the model (generators avoid the other characters for the model lines; "
     "the oracle runs on everything)",
 ]
@@ -113,8 +117,9 @@ UNPROVED = (
     "Props/C06Whole.lean states case (every string), port, language label (partial, same side conditions), gl/hl and the shape "
     "clause on STRINGS for the whole-string model fingerprintUrlString with the modelled parser, for every u such that the "
     "cleaned, resolved form of u.lower() is in the grammar class NormBridge.UrlG.wf (host name or bracketed IP literal); the "
-    "suffix swap stays component-level. That the modelled parser is CPython's is compared on every run, not proved; under platform_aware=True the commutation of T with "
-    "the facebook/youtube rewriting is explored by the oracle, not proved (KF-C06-4: it reads the string before unescaping). Escaped capitals: since e39f899 normalize_url(lowercase="
+    "suffix swap stays component-level. That the modelled parser is CPython's is compared on every run, not proved; under platform_aware=True: letter case is irrelevant for every string (fp_case_string_pa: the url is lower-cased before the branch sees it); off facebook / youtube hosts the "
+    "port / language-label / gl-hl / shape theorems hold with the option on (Props/C05Platform.lean, listed under C05: Ural.Props.C06.fp_*_string_pa, hypothesis NotPlatform); on platform urls the commutation of T with "
+    "the facebook/youtube rewriting is false by design (KF-C06-4 = D53: it reads the string before unescaping; d53_escaped_path_letter, fullPlatformInvariance_false are theorems about the concrete branch). Escaped capitals: since e39f899 normalize_url(lowercase="
     "True) folds the case right after unescaping; the equation fp('/%41') = fp('/a') is covered by the oracle (C04 family) and by "
     "fp_lower_closed (result closed under lower), not by a general theorem."
 )
@@ -330,6 +335,10 @@ def cases(rng, tier):
         if rng.random() < 0.3:
             u = tf.apply(u, random_T(rng, u)) or u
         yield _c(u, random_T(rng, u), rng.random() < 0.5, rng.random() < 0.3)
+    # platform_aware=True on facebook / youtube url shapes of the C19 generators (at the end: the
+    # stream above is unchanged): shape clause + the concrete branch of Model/Platform.lean
+    for i, u in enumerate(ppa.c19_urls(rng, tier, n_fb=350 if quick else 8000, n_yt=350 if quick else 8000)):
+        yield _c(u, ["id"], i % 2 == 1, True)
 
 
 def random_T(rng, u):
@@ -401,6 +410,8 @@ def _lines(x, ss, pa):
         out.append({"f": "c06_walk", "host": host})
     # the whole function on the string, the parser being the model's own (nothing shipped)
     out.extend(nw.fp_ops(x, ss, pa))
+    # platform_aware=True: the same with the CONCRETE branch (Model/Platform.lean), no platform table
+    out.extend(ppa.fp_pa_ops(x, ss, pa))
     return out
 
 
@@ -426,6 +437,7 @@ def impl(case):
         for host in line["walk"]:
             out.append(line["walk"][host])
         out.extend(nw.fp_impl(x, case["ss"], case["pa"]))
+        out.extend(ppa.fp_pa_impl(x, case["ss"], case["pa"]))
     return out
 
 
@@ -677,4 +689,6 @@ def classify(case):
         labs.append("swap:%d->%d labels" % (T[1].count(".") + 1, T[2].count(".") + 1))
     labs.append("ss=%d,pa=%d" % (case["ss"], case["pa"]))
     labs.append(nw.label(case["u"], {"platform_aware": case["pa"]}, lower=True))
+    if case["pa"]:
+        labs.append(ppa.label_pa(case["u"], {"platform_aware": True}, lower=True))
     return labs
